@@ -163,6 +163,9 @@ func funcLabel(fd *ast.FuncDecl) string {
 		if ix, ok := t.(*ast.IndexExpr); ok {
 			t = ix.X
 		}
+		if ix, ok := t.(*ast.IndexListExpr); ok {
+			t = ix.X
+		}
 		if id, ok := t.(*ast.Ident); ok {
 			return id.Name + "." + fd.Name.Name
 		}
